@@ -77,7 +77,12 @@ impl MarkdownEventsReader {
                             }
                         }
                     } else {
-                        self.metadata = Some(text.to_string());
+                        // the parser hands a metadata block over in pieces (one per line with CRLF endings)
+                        self.metadata = Some(format!(
+                            "{}{}",
+                            self.metadata.clone().unwrap_or_default(),
+                            text
+                        ));
                     }
                 }
                 Code(text) => {
